@@ -7,7 +7,7 @@ package txtar
 
 //@ property C03: isMarker, findFileMarker, fixNL, Parse
 //@ bounded C03: TestVerifBoundedParseRoundTrip
-//@ property C14: NeedsQuote, Quote, lemma:quotedSafe, cmd/txtar-c/main$1, isMarker, findFileMarker, fixNL, testscript/(*TestScript).applyScriptUpdates, testscript/(*TestScript).cmdUnquote
+//@ property C14: NeedsQuote, Quote, lemma:quotedSafe, Unquote, cmd/txtar-c/main$1, isMarker, findFileMarker, fixNL, testscript/(*TestScript).applyScriptUpdates, testscript/(*TestScript).cmdUnquote
 //@ bounded C14: TestVerifBoundedUnquoteQuote
 
 // Vocabulary (from the txtar format description and properties C03/C14).
@@ -78,6 +78,25 @@ package txtar
 //@   loop 1: invariant rangeindex >= 0 ==> len(nd) > 0 && at(nd, hi(nd)-1) == prev
 //@   loop 1: invariant forall P {at(nd,P)} :: lo(nd) <= P && P < hi(nd) && lineStartA(nd, P) ==> at(nd, P) == '>'
 //@   loop 1: decreases len(data) - rangeindex
+
+// C14: Unquote refuses exactly what cannot have come from Quote's shape (non-empty
+// data that does not start with '>' or does not end in a newline), returns nil
+// for empty data, and otherwise returns what is left of the caller's data after
+// every "\n>" became "\n" (all occurrences) and one leading '>' was dropped.
+// That this is the inverse of Quote for all data is the bounded stand-in's part.
+//@ ghost var gUnqRep Slice
+//@ ghost var gUnqTrim Slice
+//@ func Unquote
+//@   names (r, err)
+//@   modifies new bytes, gUnqRep, gUnqTrim
+//@   ensures (err != nil) == (len(data) > 0 && (data[0] != '>' || data[len(data)-1] != '\n'))
+//@   ensures len(data) == 0 || err != nil ==> r == nil
+//@   at call bytes.Replace#1: requires sameSlice(s, old(data)) && n < 0
+//@   at call bytes.Replace#1: requires len(from) == 2 && at(from, lo(from)) == '\n' && at(from, lo(from)+1) == '>' && len(to) == 1 && at(to, lo(to)) == '\n'
+//@   at call bytes.Replace#1: ghost_after gUnqRep = r
+//@   at call bytes.TrimPrefix#1: requires sameSlice(s, gUnqRep) && len(prefix) == 1 && at(prefix, lo(prefix)) == '>'
+//@   at call bytes.TrimPrefix#1: ghost_after gUnqTrim = r
+//@   ensures err == nil && len(data) > 0 ==> sameSlice(r, gUnqTrim) && len(r) < len(data)
 
 // If every line of d starts with '>' then d contains no marker line: together
 // with Quote's and NeedsQuote's contracts, NeedsQuote(Quote(data)) == false.
